@@ -113,6 +113,10 @@ class Unifier:
         self.rec_calls: List[Tuple[ast.Call, ast.Call]] = []
         self.kfn = kfn
         self.nfn = None
+        # hypotheses "reference function g is the current function g'" made while comparing (mutually recursive renamed functions): confirmed by the driver
+        self.vanished: Set[str] = set()
+        self.fresh: Set[str] = set()
+        self.assume: Dict[str, str] = {}
 
     # -- names ------------------------------------------------------------------------------------
     def _bij(self, k: str, n: str) -> bool:
@@ -120,6 +124,12 @@ class Unifier:
             return False
         self.map[k] = n
         self.rev[n] = k
+        return True
+
+    def _assume(self, g: str, g2: str) -> bool:
+        if self.assume.get(g, g2) != g2:
+            return False
+        self.assume[g] = g2
         return True
 
     def _local_name(self, k: str, n: str) -> bool:
@@ -166,6 +176,8 @@ class Unifier:
             return n.id == self.nname
         # a global / builtin: the very same name, and not shadowed on the other side
         if n.id != kid:
+            if kid in self.vanished and n.id in self.fresh and n.id not in self.nlocals and n.id not in self.nparams and n.id not in self.rev:
+                return self._assume(kid, n.id)
             return False
         if n.id in self.rev:
             return False
@@ -240,6 +252,15 @@ class Unifier:
                                                                        or (isinstance(k, (ast.FunctionDef, ast.AsyncFunctionDef, ast.ClassDef)) and f == "name")
                                                                        or (isinstance(k, ast.arg) and f == "arg")):
                     if not self._local_name(a, b):
+                        return False
+                elif isinstance(k, ast.alias) and f == "name" and isinstance(a, str) and isinstance(b, str):
+                    # `from .mod import g` inside the function: binds the local g; g may be a reference function under its new name
+                    if a != b and not (a in self.vanished and b in self.fresh and self._assume(a, b)):
+                        return False
+                    if k.asname is None and n.asname is None and not self._local_name(a.split(".")[0], b.split(".")[0]):
+                        return False
+                elif isinstance(k, ast.Attribute) and f == "attr" and a != b:
+                    if not (a in self.vanished and b in self.fresh and self._assume(a, b)):
                         return False
                 elif isinstance(k, ast.keyword) and f == "arg":
                     # keyword of a recursive call may carry a renamed parameter
@@ -553,7 +574,11 @@ def _restore_functions_once(pkg, sources) -> bool:
     have = {d.qual for m in pkg.values() for d in m.defs}
     known_names = {q.rsplit(":", 1)[1].rsplit(".", 1)[-1] for q in sources}
     new_defs = [(m, d) for m in pkg.values() for d in m.new if d.kind in ("module", "method")]
-    changed = False
+    vanished = {q.rsplit(":", 1)[1].rsplit(".", 1)[-1] for q in sources if q not in have and ".<locals>." not in q}
+    fresh = {d.node.name for _m, d in new_defs}
+    # phase A: for every vanished reference function the unique current function whose body unifies with it (possibly under hypotheses about other
+    # vanished functions it calls)
+    cands: Dict[str, _Plan] = {}
     for qual, entry in sources.items():
         if qual in have or ".<locals>." in qual:
             continue
@@ -580,6 +605,7 @@ def _restore_functions_once(pkg, sources) -> bool:
                     continue
             u = Unifier(kfn, k_is_method, "func", nname=d.node.name, nparams=_params(d.node), nlocals=_stored(d.node), n_is_method=d.kind == "method")
             u.nfn = d.node
+            u.vanished, u.fresh = vanished - {kfn.name}, fresh - {d.node.name}
             if not u.u_block(kbody, nbody):
                 continue
             # every reference-side parameter that the body uses must be a parameter on the current side as well
@@ -593,6 +619,21 @@ def _restore_functions_once(pkg, sources) -> bool:
         plan = plans[0]
         if plan.nname != plan.kname and plan.nname in known_names:
             continue
+        plan.home = (hm, container)
+        cands[qual] = plan
+    # phase B: hypotheses must be confirmed by other candidates (greatest fixed point)
+    while True:
+        pairs = {(p.kname, p.nname) for p in cands.values()}
+        drop = [q for q, p in cands.items() if any((g, g2) not in pairs for g, g2 in p.uni.assume.items())]
+        if not drop:
+            break
+        for q in drop:
+            del cands[q]
+    # phase C: apply
+    changed = False
+    for qual, plan in cands.items():
+        hm, container = plan.home
+        entry, kfn = plan.entry, plan.kfn
         refs = _references(pkg, plan)
         pure = _same_signature(plan)
         # dry run: every reference must be rewritable
@@ -621,7 +662,7 @@ def _restore_functions_once(pkg, sources) -> bool:
                 ok = False
                 break
             rewrites.append((m, parent, fld, idx, v, kc))
-        if not ok:
+        if not ok or plan.nd.node not in plan.nd.container:
             continue
         # 1. the definition: K's text with N's positions
         plan.uni.copy_positions()
@@ -676,8 +717,6 @@ def _restore_functions_once(pkg, sources) -> bool:
         hm.log.append(f"{plan.nd.qual} is the reference function {qual} ({', '.join(what)}; bodies unify): restored")
         changed = True
         _refresh(pkg)
-        have = {d.qual for m in pkg.values() for d in m.defs}
-        new_defs = [(m, d) for m in pkg.values() for d in m.new if d.kind in ("module", "method")]
     return changed
 
 
